@@ -78,9 +78,19 @@ func propMatch(tags []string, prop string) bool {
 		if t == prop {
 			return true
 		}
+		for _, inc := range propIncludes[prop] {
+			if t == inc {
+				return true
+			}
+		}
 	}
 	return false
 }
+
+// propIncludes: a check of the key property also checks (and may rely on) everything tagged
+// with the listed properties. C03 (struct codecs) is stated on top of C02 (primitive codec):
+// every C02 obligation is re-discharged in a C03 run, so a broken primitive is a C03 violation too.
+var propIncludes = map[string][]string{"C03": {"C02"}}
 
 // setupEntry declares parameters, lets, witnesses and assumes the precondition.
 func (g *Gen) setupEntry() *State {
@@ -1146,6 +1156,23 @@ func (g *Gen) exit() {
 		if c.Unproved {
 			continue
 		}
+		if g.con.PerReturn && len(g.rets) > 1 {
+			for j, rt := range g.rets {
+				rv := map[string]Val{}
+				for k, v := range g.penv {
+					rv[k] = v
+				}
+				for ri := range names {
+					for _, nm := range names[ri] {
+						rv[nm] = rt.results[ri]
+					}
+				}
+				renv := g.envFor(rv, rt.st, g.old)
+				t := g.mustClause(renv, c.E, fmt.Sprintf("ensures#%d", i))
+				g.oblige(fmt.Sprintf("%s/ensures#%d@ret%d", shortKey(g.key), i, j), "ensures", c.Tags, rt.r, t, c.Src, g.fn.Pos())
+			}
+			continue
+		}
 		t := g.mustClause(env, c.E, fmt.Sprintf("ensures#%d", i))
 		g.oblige(fmt.Sprintf("%s/ensures#%d", shortKey(g.key), i), "ensures", c.Tags, "r_exit", t, c.Src, g.fn.Pos())
 	}
@@ -1271,12 +1298,12 @@ func (e *Env) mapHas(b Val, m *types.Map, k Val) string {
 	if seqLike(k) {
 		kt = e.asSeq(k)
 	}
-	return "(select (select " + e.g.heap(e.cur, dk) + " " + b.T + ") " + kt + ")"
+	return "(and (not (= " + b.T + " nilloc)) (select (select " + e.g.heap(e.cur, dk) + " " + b.T + ") " + kt + "))"
 }
 
 func (e *Env) mapLen(b Val, m *types.Map) string {
 	_, _, lk := e.g.mapHeapKinds(m)
-	return "(select " + e.g.heap(e.cur, lk) + " " + b.T + ")"
+	return "(ite (= " + b.T + " nilloc) 0 (select " + e.g.heap(e.cur, lk) + " " + b.T + "))"
 }
 
 var _ = strings.Join
